@@ -84,8 +84,8 @@ class Patch:
         self.undo = []
 
 
-FAULT_KINDS = ["raise_rt", "raise_key", "raise_noargs", "raise_intarg", "raise_stopiter", "cplx0", "npcplx0", "nan", "pinf", "ninf", "cplx", "vec", "list3", "tuple2", "none"]
-FAULT_KINDS_SPEC = ["notuple", "tuple3", "sd0", "sdneg", "sdnan", "sdinf", "sdnone", "sdcplx0", "sdstr", "sdhuge", "sdvec"]
+FAULT_KINDS = ["raise_rt", "raise_key", "raise_noargs", "raise_intarg", "raise_stopiter", "cplx0", "npcplx0", "nan", "pinf", "ninf", "cplx", "vec", "list3", "tuple2", "none", "str", "hugeint", "ldinf"]
+FAULT_KINDS_SPEC = ["notuple", "tuple3", "sd0", "sdneg", "sdnan", "sdinf", "sdnone", "sdcplx0", "sdstr", "sdhuge", "sdvec", "sdldzero"]
 
 
 class Run:
@@ -220,6 +220,12 @@ def make_target(run):
             rec["val"] = float(ival)
             if tkind == "adv":
                 raise HarnessError("val_type needs a natural landscape")
+            if vt_ == "hugeint":   # a Python int beyond int64 is still a finite real scalar
+                rec["val"] = float(ival * 2 ** 70)
+                return ival * 2 ** 70
+            if vt_ == "fraction":
+                import fractions
+                return fractions.Fraction(ival, 1)
             typed = {"uint64": np.uint64, "int64": np.int64, "int32": np.int32, "float32": np.float32, "int": int, "uint8": np.uint8}[vt_]
             if vt_ == "uint8":
                 ival = min(ival, 250)
@@ -242,7 +248,8 @@ def make_target(run):
             bad = {"nan": np.nan, "pinf": np.inf, "ninf": -np.inf, "cplx": 1 + 2j, "cplx0": complex(float(val) if np.isscalar(val) else 1.0, 0.0),
                    "npcplx0": np.complex128(complex(float(val) if np.isscalar(val) else 1.0, 0.0)),
                    "vec": np.array([1.0, 2.0]), "list3": [float(val) if np.isscalar(val) else 1.0, 0.5, 0.25],
-                   "tuple2": (float(val) if np.isscalar(val) else 1.0, 0.5), "none": None}
+                   "tuple2": (float(val) if np.isscalar(val) else 1.0, 0.5), "none": None, "str": "1.5", "hugeint": 10 ** 400,
+                   "ldinf": np.longdouble("1e4000") if np.finfo(np.longdouble).max > 1e308 * 10 else np.inf}
             if kind in bad:
                 return (bad[kind], sd) if mode == "spec" else bad[kind]
             if kind == "notuple":
@@ -250,7 +257,8 @@ def make_target(run):
             if kind == "tuple3":
                 return (val, sd, sd)
             sdbad = {"sd0": 0.0, "sdneg": -1.0, "sdnan": np.nan, "sdinf": np.inf, "sdnone": None, "sdcplx0": complex(0.1, 0.0), "sdstr": "0.1",
-                     "sdhuge": 10 ** 400, "sdvec": np.array([0.1, 0.2])}
+                     "sdhuge": 10 ** 400, "sdvec": np.array([0.1, 0.2]),
+                     "sdldzero": np.longdouble("1e-4000") if np.finfo(np.longdouble).tiny < 1e-320 else 0.0}
             return (val, sdbad[kind])
         return (val, sd) if mode == "spec" else val
 
